@@ -80,6 +80,13 @@ def _k2off(seed):
     return Driver("k2off", [two_regime_series(9, 1, 3) * 0.05 + 1e6], W=2, K=2, beta=1.0, m=2, biased=True)
 
 
+@driver("k2one")
+def _k2one(seed):
+    # ONE regime, two clusters: clusters keep emptying and being refilled (repopulation in several rounds)
+    rng = np.random.default_rng(1)
+    return Driver("k2one", [np.round(rng.normal(0.0, 1.0, size=(9, 1)), 3)], W=1, K=2, beta=2.0, m=3)
+
+
 @driver("k2w3")
 def _k2w3(seed):
     return Driver("k2w3", [two_regime_series(10, 1, 13)], W=3, K=2, beta=1.5, m=2)
